@@ -1,0 +1,128 @@
+//! Verification hooks (compiled only with `--cfg mqtt_protocol_core_verif`): a read-only
+//! digest of every field of `GenericConnection`. Add-only; nothing here changes behaviour.
+use super::*;
+use alloc::string::String;
+use alloc::vec::Vec;
+
+/// Snapshot of all connection fields (sets sorted; tables as exported by their own hooks).
+#[derive(Debug, Clone)]
+pub struct VerifState {
+    pub protocol_version: Version,
+    pub pid_free: Vec<(u64, u64)>,
+    pub pid_suback: Vec<u64>,
+    pub pid_unsuback: Vec<u64>,
+    pub pid_puback: Vec<u64>,
+    pub pid_pubrec: Vec<u64>,
+    pub pid_pubcomp: Vec<u64>,
+    pub need_store: bool,
+    pub offline_publish: bool,
+    pub auto_pub_response: bool,
+    pub auto_ping_response: bool,
+    pub auto_map_topic_alias_send: bool,
+    pub auto_replace_topic_alias_send: bool,
+    #[allow(clippy::type_complexity)]
+    pub topic_alias_recv: Option<(u16, Vec<(u16, String)>)>,
+    #[allow(clippy::type_complexity)]
+    pub topic_alias_send: Option<(
+        u16,
+        Vec<(u16, String)>,
+        Vec<(String, Vec<u16>)>,
+        Vec<(u16, u16)>,
+    )>,
+    pub publish_send_max: Option<u16>,
+    pub publish_recv_max: Option<u16>,
+    pub publish_send_count: u16,
+    pub publish_recv: Vec<u64>,
+    pub maximum_packet_size_send: u32,
+    pub maximum_packet_size_recv: u32,
+    pub status: u8,
+    pub pingreq_user_send_interval_ms: Option<u64>,
+    pub pingreq_keep_alive_ms: u64,
+    pub pingreq_server_keep_alive_ms: Option<u64>,
+    pub pingreq_recv_timeout_ms: u64,
+    pub pingresp_recv_timeout_ms: u64,
+    pub qos2_publish_handled: Vec<u64>,
+    pub pingreq_send_set: bool,
+    pub pingreq_recv_set: bool,
+    pub pingresp_recv_set: bool,
+    pub packet_builder: (u8, Vec<u8>, usize, Vec<u8>),
+    pub is_client: bool,
+}
+
+fn sorted<T: IsPacketId>(s: &HashSet<T>) -> Vec<u64>
+where
+    u64: TryFrom<T>,
+{
+    let mut v: Vec<u64> = s
+        .iter()
+        .map(|x| u64::try_from(*x).unwrap_or(u64::MAX))
+        .collect();
+    v.sort_unstable();
+    v
+}
+
+impl<Role, PacketIdType> GenericConnection<Role, PacketIdType>
+where
+    Role: RoleType,
+    PacketIdType: IsPacketId,
+    u64: TryFrom<PacketIdType>,
+{
+    /// Read-only digest of the whole connection state.
+    pub fn verif_state(&self) -> VerifState {
+        VerifState {
+            protocol_version: self.protocol_version,
+            pid_free: self
+                .pid_man
+                .verif_intervals()
+                .into_iter()
+                .map(|(l, h)| {
+                    (
+                        u64::try_from(l).unwrap_or(u64::MAX),
+                        u64::try_from(h).unwrap_or(u64::MAX),
+                    )
+                })
+                .collect(),
+            pid_suback: sorted(&self.pid_suback),
+            pid_unsuback: sorted(&self.pid_unsuback),
+            pid_puback: sorted(&self.pid_puback),
+            pid_pubrec: sorted(&self.pid_pubrec),
+            pid_pubcomp: sorted(&self.pid_pubcomp),
+            need_store: self.need_store,
+            offline_publish: self.offline_publish,
+            auto_pub_response: self.auto_pub_response,
+            auto_ping_response: self.auto_ping_response,
+            auto_map_topic_alias_send: self.auto_map_topic_alias_send,
+            auto_replace_topic_alias_send: self.auto_replace_topic_alias_send,
+            topic_alias_recv: self
+                .topic_alias_recv
+                .as_ref()
+                .map(|t| (t.max(), t.verif_dump())),
+            topic_alias_send: self.topic_alias_send.as_ref().map(|t| {
+                let (a, b, c) = t.verif_dump();
+                (t.max(), a, b, c)
+            }),
+            publish_send_max: self.publish_send_max,
+            publish_recv_max: self.publish_recv_max,
+            publish_send_count: self.publish_send_count,
+            publish_recv: sorted(&self.publish_recv),
+            maximum_packet_size_send: self.maximum_packet_size_send,
+            maximum_packet_size_recv: self.maximum_packet_size_recv,
+            status: match self.status {
+                ConnectionStatus::Disconnected => 0,
+                ConnectionStatus::Connecting => 1,
+                ConnectionStatus::Connected => 2,
+            },
+            pingreq_user_send_interval_ms: self.pingreq_user_send_interval_ms,
+            pingreq_keep_alive_ms: self.pingreq_keep_alive_ms,
+            pingreq_server_keep_alive_ms: self.pingreq_server_keep_alive_ms,
+            pingreq_recv_timeout_ms: self.pingreq_recv_timeout_ms,
+            pingresp_recv_timeout_ms: self.pingresp_recv_timeout_ms,
+            qos2_publish_handled: sorted(&self.qos2_publish_handled),
+            pingreq_send_set: self.pingreq_send_set,
+            pingreq_recv_set: self.pingreq_recv_set,
+            pingresp_recv_set: self.pingresp_recv_set,
+            packet_builder: self.packet_builder.verif_state(),
+            is_client: self.is_client,
+        }
+    }
+}
